@@ -7,6 +7,7 @@ package main
 import (
 	"bytes"
 	"encoding/json"
+	"errors"
 	"flag"
 	"fmt"
 	"math/rand"
@@ -46,6 +47,18 @@ type lockedBuffer struct {
 }
 
 func (l *lockedBuffer) Write(p []byte) (int, error) { return l.b.Write(p) }
+
+type failingEffect struct{}
+
+func (failingEffect) Exec() error { return errors.New("webhook: connection refused") }
+
+// formattingLogger formats every message (calling String() on its arguments), as a real logger does
+type formattingLogger struct{}
+
+func (formattingLogger) Debug(f string, a ...any) { _ = fmt.Sprintf(f, a...) }
+func (formattingLogger) Info(f string, a ...any)  { _ = fmt.Sprintf(f, a...) }
+func (formattingLogger) Warn(f string, a ...any)  { _ = fmt.Sprintf(f, a...) }
+func (formattingLogger) Error(f string, a ...any) { _ = fmt.Sprintf(f, a...) }
 
 // yieldingLogger gives the processor away on every call, as a logger that writes somewhere does
 type yieldingLogger struct{}
@@ -239,7 +252,9 @@ func main() {
 	// 2. circuit breaker: concurrent requests with failing responses (trips and recoveries happen under load)
 	{
 		scenarios++
-		cb, err := cbreaker.New(flaky, "LatencyAtQuantileMS(50.0) > 100000 || NetworkErrorRatio() > 0.3", cbreaker.FallbackDuration(time.Millisecond), cbreaker.RecoveryDuration(time.Millisecond), cbreaker.CheckPeriod(time.Microsecond))
+		cb, err := cbreaker.New(flaky, "LatencyAtQuantileMS(50.0) > 100000 || NetworkErrorRatio() > 0.3", cbreaker.FallbackDuration(time.Millisecond), cbreaker.RecoveryDuration(time.Millisecond), cbreaker.CheckPeriod(time.Microsecond),
+			// side effects that fail, and a logger that really formats what it is given (the breaker itself among it)
+			cbreaker.OnTripped(failingEffect{}), cbreaker.OnStandby(failingEffect{}), cbreaker.Logger(formattingLogger{}))
 		if err != nil {
 			panic(err)
 		}
